@@ -328,6 +328,12 @@ func runC10(ctx *common.Ctx) error {
 		{"t UID SEARCH CHARSET utf-8 OR (NOT SEEN 1:3) SINCE 1-Feb-2020 CC x\r\n", "t", `(uid (search "utf-8" ((or (list (not (seen)) (seqset ((1 3)))) (since 2020 2 1)) (cc "x"))))`},
 		{"t SEARCH CC {3}\r\na b\r\n", "t", `(search "" ((cc "a b")))`},
 		{"t SEARCH charset US-ASCII cc x\r\n", "t", `(search "US-ASCII" ((cc "x")))`},
+		{"t search cC x Cc y\r\n", "t", `(search "" ((cc "x") (cc "y")))`},
+		{"t SEARCH cHARSET utf-8 cc x\r\n", "t", `(search "utf-8" ((cc "x")))`},
+		{"t store 1 +flags.silent \\Seen\r\n", "t", `(store ((1 1)) add 1 ("\\Seen"))`},
+		{"t FETCH 1 (rfc822.header body.peek[header.fields.not (a)] bodystructure)\r\n", "t", `(fetch ((1 1)) (rfc822header (bodysection 1 (headerfields 1 ("a")) ()) bodystructure))`},
+		{"t id NiL\r\n", "t", `(idget)`},
+		{"t ID (\"a\" nil)\r\n", "t", `(idset (("a" "")))`},
 		{"t STORE 1 +FLAGS.SILENT (\\Seen foo)\r\n", "t", `(store ((1 1)) add 1 ("\\Seen" "foo"))`},
 		{"t store 2:4 flags \\Deleted\r\n", "t", `(store ((2 4)) set 0 ("\\Deleted"))`},
 		{"t STORE * -FLAGS ()\r\n", "t", `(store ((0 0)) rem 0 ())`},
@@ -372,7 +378,7 @@ func runC10(ctx *common.Ctx) error {
 	res.Evaluations += 2
 
 	// ---- 2. generated streams ----
-	nStreams := ctx.Budget(420, 6000)
+	nStreams := ctx.Budget(380, 6000)
 	type mutSrc struct {
 		data []byte
 	}
@@ -434,7 +440,7 @@ func runC10(ctx *common.Ctx) error {
 	}
 
 	// ---- 3. mutated / truncated inputs: no oracle (the property speaks about valid commands), model only ----
-	nMut := ctx.Budget(420, 4000)
+	nMut := ctx.Budget(380, 4000)
 	for i := 0; i < nMut && len(pool) > 0; i++ {
 		src := pool[rng.Pick(len(pool))]
 		data := append([]byte{}, src...)
